@@ -89,4 +89,65 @@ CHECKS["C09"] = {
     "technique": "Lean 4 proof (trie invariant by induction on the key, history induction over an abstract cache) + operation-sequence correspondence + monitored sampler runs",
 }
 
+CHECKS["C06"] = {
+    "text": "Lean theorems over the model of extract_read_variants / encode_sample_reads / validate_reference_alleles: one row per read name iff a fetched, filter-passing alignment of that sample bears it (insertion order, uniqueness); each cell is the order-independent merge of the bases aligned to that SNV (gap / common base / N); filter options are monotone; RCOUNT, SNVDP, RCALLS, DP (round-half-even) and the de-duplication counts are the corresponding counts; any reference disagreement (SNV file vs FASTA, MD-derived base vs SNV REF) is an error, never a matrix. Model tied to the code by differential runs on BAMs written from known records across read-group field x MAPQ x keep flags x sample selection, pools, the assemble CLI parser and assemble's FORMAT fields.",
+    "design_ref": "DESIGN.md section 4, C06",
+    "note": _NOTE + 'partial: BAM decoding, fetch() and MD reconstruction are runtime (pysam/htslib) and only exercised by the correspondence. Open known findings (dependency behaviour): CIGAR P walked as an insertion by pysam.get_aligned_pairs; one-base reads corrupt AlignedSegment.qual.',
+    "technique": 'Lean 4 proof (fold invariants over association lists in Except, list permutation) + differential correspondence on synthetic BAMs + independent set-based pileup oracle + reference-conflict fault streams',
+}
+CHECKS["C07"] = {
+    "text": "Lean validator over parsed VCF records with soundness theorems: GT well-formed (ploidy entries, listed alleles, ascending, '.' last); every INFO/FORMAT key declared with the 1/A/R/G cardinality for the record's allele count (REF counted when masked) and the sample's ploidy; REF = reference window and ALT differs only at input variants; AC/AN/UAN/NS/DP/RCOUNT/ACP/AFP equal the recomputation within a derived rounding bound; G length = number of genotypes (via C11); the code's GT formatter is sorted with dots last. Tied to the code by running assemble / call / call-exact / call-pedigree on synthetic data sets x --report subsets with every line through the Lean validator, an independent Python evaluation and pysam, plus read-back of captured internal values.",
+    "design_ref": "DESIGN.md section 4, C07",
+    "note": _NOTE + 'partial: numpy float printing and np.round ties are compared, not proved; program runs execute in a forked child. Guards the F3 / F4 repairs by signature.',
+    "technique": 'Lean 4 proof (list/fold invariants, C11 bijection, rational rounding bound) + executable validator + CLI-level differential correspondence + pysam cross-read',
+}
+CHECKS["C08"] = {
+    "text": "For fixed inputs and seed the record of a locus is a function of that locus only: fit re-seeds both generators (numpy, numba) so its trace is independent of process history; np.array_split blocks partition the loci; every terminating execution of the worker / queue / writer protocol writes a permutation of all lines, each whole, each worker's in order; a failing locus makes every execution end with the error status (no deadlock, no infinite run); single- and multi-core runs agree on status and multiset of lines. Proved by an invariant over a small-step interleaving relation, by induction on executions.",
+    "design_ref": "DESIGN.md section 4, C08",
+    "note": _NOTE + 'partial: OS scheduling, pipes and multiprocessing internals are over-approximated by the interleaving relation and observed only by real runs (cores 1/2/3/5, fault injection with timeout); random streams are abstract.',
+    "technique": 'Lean 4 small-step model + invariant proof; correspondence by forced-schedule execution of the real _worker/_writer/_run_stdout_multi_core, array_split differential; oracles: bit-identical fits after RNG perturbation, CLI metamorphic runs, exit status under injected failures',
+}
+CHECKS["C10"] = {
+    "text": "The per-sample loop gives each sample the column it gets alone (any subset / order of samples selects / permutes columns); a pool's de-duplicated reads-with-counts equal those of the merged sample as multisets (hence equal likelihood, via C04); assemble's ALT list is a union over samples: adding samples only adds ALT alleles and only turns '.' into named alleles, sequences never change.",
+    "design_ref": "DESIGN.md section 4, C10",
+    "note": _NOTE + 'partial: float summation order for physically reordered reads (exact posterior ties in call-exact are shown and counted, not compared) and argsort tie order of equally supported ALT alleles are outside the model.',
+    "technique": 'Lean 4 model threading RNG state through the sample loop + list/multiset proofs incl. machine-checked counter-examples for index-dependent seeding; correspondence by wrapping encode_sample_reads / call_posterior_haplotypes in-process; oracles: textual column equality over sample subsets / orders, pools vs physically merged BAMs',
+}
+CHECKS["C12"] = {
+    "text": "Lean theorems over the model of LocusPrior.from_variant_record / encode_haplotypes / Locus.format_haplotypes: SNV columns are exactly the columns where a sequence differs from REF, alleles are numbered by first appearance with REF = 0, format o encode is the identity on every fixed-length REF/ALT record (no-ALT and SNV-less included), encode o format is the identity on valid index vectors, and the SNV positions recovered from printed ALT strings are the polymorphic subset of assemble's SNVPOS; assemble output of synthetic data sets (REFMASKED, ALT-less, SNV-less, NOA) is fed to call and call-exact and checked for identical CHROM/POS/REF/ALT and complete GT unless NOA/AF0.",
+    "design_ref": "DESIGN.md section 4, C12",
+    "note": _NOTE + 'The pipeline half (assemble -> call / call-exact) is checked on generated data sets only; pysam/htslib decoding is runtime.',
+    "technique": 'Lean 4 proof (list induction: template filling, first-appearance numbering, nodup index inversion) + differential correspondence on generated VCF records + CLI pipeline oracles',
+}
+CHECKS["C16"] = {
+    "text": 'Lean theorems over the model of parse_allele_filter / apply_allele_filter / LocusPrior.from_variant_record and the masking / relabel / NOA-AF0 logic of call, call-exact, call-pedigree: retained frequencies are the named INFO values rescaled to sum to one, exactly the ALT alleles failing the predicate are removed while a failing REF is kept and masked, relabelled genotypes only contain unmasked non-zero-prior alleles, per-allele arrays have one entry per record allele, a record without usable allele takes the NOA/AF0 branch in all three programs alike. Tied to the code by generated filter strings, records with R/A Float/Integer arrays, relabelled traces and CLI output of the three programs.',
+    "design_ref": "DESIGN.md section 4, C16",
+    "note": _NOTE + 'Filter strings are ASCII in the model; decimal->float64 rounding of the threshold and float32 INFO storage are runtime. Guards the F4 / F12 repairs by signature.',
+    "technique": 'Lean 4 proof (inversion of the Except pipeline, rational sums, list filtering) + differential correspondence + exact-Fraction oracles on CLI output',
+}
+CHECKS["C17"] = {
+    "text": 'The inheritance pmf (hypergeometric gametes with double reduction, per-gamete error mixture with the multinomial frequency prior, sum over gamete pairs) sums to one over all unordered progeny genotypes and over all gametes for every ploidy, gamete-size pair (unbalanced, clonal, unknown parent), lambda, error and frequency vector; with zero error it is positive exactly when trio_valid / duo_valid accept.',
+    "design_ref": "DESIGN.md section 4, C17",
+    "note": _NOTE + "Theorems are about the specification trioPmf; the model of trio_log_pmf's own evaluation (four branches, literal increment_dosage enumerator) is compared with it in exact rationals on every case; enumerator soundness and strict decrease proved, completeness kernel-checked for small constraints.",
+    "technique": 'Lean 4 proofs (multivariate Vandermonde via generic convolution over compositions, regrouping over nodup count vectors) + differential correspondence on enumerated genotype spaces + sum / zero-iff-invalid oracles',
+}
+CHECKS["C18"] = {
+    "text": 'Gibbs update = exact full conditional of the joint pedigree posterior for every gamete-size pair (incl. unbalanced, clonal, unknown parents, selfing); single-allele MH and the parental allele swap satisfy detailed balance w.r.t. J x prod mult!; the joint factorises over the Markov blanket of an individual / a parental pair.',
+    "design_ref": "DESIGN.md section 4, C18",
+    "note": _NOTE + 'The joint is built from the model of trio_log_pmf; the former equal-weights code is refuted by a machine-checked counter-example (tau=(1,2)); oracles with signatures guard the F5 / F6 / F11 repairs; swap with p = q only tested.',
+    "technique": 'Lean 4 proofs (MH.base_step_db / factProd_swap instances, termwise scaling of the allele-level pmf, product splitting over the blanket) + differential correspondence of probability vectors / prob_accept + exact-conditional and detailed-balance oracles',
+}
+CHECKS["C19"] = {
+    "text": "Lean theorems over the model of find_snvs.bam_region_depths / write_vcf_block: depths equal the configured-filter pileup on the region where the remaining engine defaults do not intervene, with machine-checked counter-examples outside it; the specification's depths are monotone and additive in each filter option; an allele is listed iff it meets ind-maf / ind-mad / min-ind, maf, mad; a record is emitted iff >= 2 alleles are kept; REF first, REFMASKED iff REF failed; ALT by non-increasing mean frequency.",
+    "design_ref": "DESIGN.md section 4, C19",
+    "note": _NOTE + 'partial: the pileup engine (htslib + pysam defaults) is modelled from observed behaviour and tied only by correspondence. Open known findings: secondary reads, base quality < 13, orphan mates and overlapping mates are dropped / merged by engine defaults no option governs. Guards the F7 / F15 repairs by signature.',
+    "technique": 'Lean 4 proof (countP / filter algebra, sort stability, partial-correctness theorem + decide witnesses) + differential correspondence (in-process, patched depths, CLI) + exact-arithmetic property oracle with per-cause attribution',
+}
+CHECKS["C20"] = {
+    "text": "Lean model of atomize's block function with theorems: line at POS+SNVPOS-1 with PS=POS; sample GT = projection of the haplotype GT; site alleles numbered by first appearance with REF first; AC/ACP/DS = haplotype-level counts marginalised to the site; skipped without SNVs; totality on every record shape. Tied to atomize by generated haplotype VCFs of every shape and by real assemble / call / call-exact outputs parsed independently.",
+    "design_ref": "DESIGN.md section 4, C20",
+    "note": _NOTE + 'partial: pysam float32 decoding and pandas/numpy text output are runtime. Guards the F8 / F9 / F13 / F14 repairs by signature.',
+    "technique": 'Lean 4 proof (restricted-growth numbering invariant, marginal-sum algebra, explicit Except outcomes) + differential correspondence on generated and pipeline-produced VCFs + direct Python oracle',
+}
+
 NOT_APPLICABLE = {}
